@@ -4,27 +4,251 @@ import (
 	"go/token"
 	"go/types"
 	"reflect"
+	"strconv"
 	"strings"
 )
 
-// engine-native dynamic types for a tiny ProtoReflect model
+// pb-lite: a minimal protoreflect.Message view over *generated Go structs*,
+// driven by their `protobuf:"…"` struct tags. It models proto3 presence
+// (scalar set ⇔ non-zero, message set ⇔ non-nil pointer, oneof set ⇔ non-nil
+// wrapper) and supports the operations j5 performs on well-known/generated
+// messages: Range, Has, Get, Set, Clear, Descriptor().Fields().By…, Interface.
 var pbMsgType = types.NewNamed(types.NewTypeName(token.NoPos, nil, "engine.pbMsg", nil), types.NewStruct(nil, nil), nil)
 var pbFDType = types.NewNamed(types.NewTypeName(token.NoPos, nil, "engine.pbFD", nil), types.NewStruct(nil, nil), nil)
+var pbMDType = types.NewNamed(types.NewTypeName(token.NoPos, nil, "engine.pbMD", nil), types.NewStruct(nil, nil), nil)
+var pbFDsType = types.NewNamed(types.NewTypeName(token.NoPos, nil, "engine.pbFDs", nil), types.NewStruct(nil, nil), nil)
 
 type pbMsg struct {
 	p  *Ptr
 	st *types.Struct
+	pt types.Type // *T
 }
-type pbFD struct{ name string }
+type pbFD struct {
+	name   string
+	number int
+	kind   int // protoreflect.Kind
+	idx    int // struct field index (−1 for oneof members)
+	st     *types.Struct
+	wrap   types.Type // oneof member: the wrapper pointer type
+	oneof  int        // struct field index of the oneof interface field, or −1
+	list   bool
+}
+type pbMD struct {
+	st *types.Struct
+	pt types.Type
+}
+type pbFDs struct{ fds []pbFD }
 
-func protoName(tag string) string {
-	for _, part := range strings.Split(reflect.StructTag(tag).Get("protobuf"), ",") {
-		if strings.HasPrefix(part, "name=") {
-			return part[5:]
+func isEngineType(t types.Type) bool {
+	return t == types.Type(pbMsgType) || t == types.Type(pbFDType) || t == types.Type(pbMDType) || t == types.Type(pbFDsType)
+}
+
+func protoTag(tag string) (wire string, number int, name string, ok bool) {
+	pt := reflect.StructTag(tag).Get("protobuf")
+	if pt == "" {
+		return
+	}
+	parts := strings.Split(pt, ",")
+	if len(parts) < 2 {
+		return
+	}
+	wire = parts[0]
+	number, _ = strconv.Atoi(parts[1])
+	for _, p := range parts[2:] {
+		if strings.HasPrefix(p, "name=") {
+			name = p[5:]
 		}
 	}
-	return ""
+	return wire, number, name, true
 }
+
+func protoName(tag string) string {
+	_, _, n, _ := protoTag(tag)
+	return n
+}
+
+func pbKind(wire string, t types.Type) int {
+	if _, ok := t.Underlying().(*types.Slice); ok && wire != "bytes" {
+		t = t.Underlying().(*types.Slice).Elem()
+	}
+	if p, ok := t.(*types.Pointer); ok {
+		if _, isStruct := p.Elem().Underlying().(*types.Struct); isStruct {
+			return 11
+		}
+		t = p.Elem() // proto3 optional scalar
+	}
+	if sl, ok := t.Underlying().(*types.Slice); ok {
+		if b, ok := sl.Elem().Underlying().(*types.Basic); ok && b.Kind() == types.Uint8 {
+			return 12
+		}
+		return pbKind(wire, sl.Elem())
+	}
+	b, ok := t.Underlying().(*types.Basic)
+	if !ok {
+		return 11
+	}
+	switch b.Kind() {
+	case types.Bool:
+		return 8
+	case types.String:
+		return 9
+	case types.Float32:
+		return 2
+	case types.Float64:
+		return 1
+	case types.Int32:
+		if _, named := t.(*types.Named); named {
+			return 14 // enum
+		}
+		switch wire {
+		case "zigzag32":
+			return 17
+		case "fixed32":
+			return 15
+		}
+		return 5
+	case types.Int64:
+		switch wire {
+		case "zigzag64":
+			return 18
+		case "fixed64":
+			return 16
+		}
+		return 3
+	case types.Uint32:
+		if wire == "fixed32" {
+			return 7
+		}
+		return 13
+	case types.Uint64:
+		if wire == "fixed64" {
+			return 6
+		}
+		return 4
+	}
+	return 11
+}
+
+// pbFields lists the proto fields of a generated struct, including the members
+// of its oneofs (found through the generated XXX_OneofWrappers-free layout: an
+// interface-typed field whose implementing wrapper types live in the same package).
+func (c *Ctx) pbFields(st *types.Struct, pt types.Type) []pbFD {
+	var out []pbFD
+	for i := 0; i < st.NumFields(); i++ {
+		f := st.Field(i)
+		if !f.Exported() {
+			continue
+		}
+		if wire, num, name, ok := protoTag(st.Tag(i)); ok {
+			_, isSlice := f.Type().Underlying().(*types.Slice)
+			kind := pbKind(wire, f.Type())
+			out = append(out, pbFD{name: name, number: num, kind: kind, idx: i, st: st, oneof: -1, list: isSlice && kind != 12})
+			continue
+		}
+		if it, ok := f.Type().Underlying().(*types.Interface); ok && reflect.StructTag(st.Tag(i)).Get("protobuf_oneof") != "" {
+			// members: pointer-to-struct types of the same package implementing the interface
+			named, _ := f.Type().(*types.Named)
+			if named == nil || named.Obj().Pkg() == nil {
+				continue
+			}
+			scope := named.Obj().Pkg().Scope()
+			for _, n := range scope.Names() {
+				tn, ok := scope.Lookup(n).(*types.TypeName)
+				if !ok {
+					continue
+				}
+				wst, ok := tn.Type().Underlying().(*types.Struct)
+				if !ok || wst.NumFields() != 1 {
+					continue
+				}
+				wp := types.NewPointer(tn.Type())
+				if !types.Implements(wp, it) {
+					continue
+				}
+				wire, num, name, ok := protoTag(wst.Tag(0))
+				if !ok {
+					continue
+				}
+				out = append(out, pbFD{name: name, number: num, kind: pbKind(wire, wst.Field(0).Type()), idx: -1, st: st, wrap: wp, oneof: i})
+			}
+		}
+	}
+	return out
+}
+
+func (c *Ctx) pbFieldValue(fd pbFD, raw Value, ft types.Type) Value {
+	switch fd.kind {
+	case 8:
+		return c.mkPV("bool", raw)
+	case 9:
+		return c.mkPV("string", raw)
+	case 12:
+		return c.mkPV("bytes", raw)
+	case 5, 17, 15:
+		return c.mkPV("int32", raw)
+	case 3, 18, 16:
+		return c.mkPV("int64", raw)
+	case 13, 7:
+		return c.mkPV("uint32", raw)
+	case 4, 6:
+		return c.mkPV("uint64", raw)
+	case 2:
+		return c.mkPV("float32", raw)
+	case 1:
+		return c.mkPV("float64", raw)
+	case 14:
+		return c.mkPV("enum", raw)
+	case 11:
+		p, _ := raw.(*Ptr)
+		pt, _ := ft.(*types.Pointer)
+		if pt == nil {
+			c.errf("pb-lite: message field of type %s", ft)
+		}
+		st, _ := pt.Elem().Underlying().(*types.Struct)
+		return c.mkPV("message", Iface{t: pbMsgType, v: pbMsg{p: p, st: st, pt: pt}})
+	}
+	c.errf("pb-lite: field kind %d", fd.kind)
+	return nil
+}
+
+// isZeroTerm: proto3 presence of a scalar
+func (c *Ctx) pbIsSet(fd pbFD, raw Value) *Term {
+	switch v := raw.(type) {
+	case *Term:
+		if v.width == 0 {
+			return v
+		}
+		return Not(Cmp("=", v, zeroLike(v)))
+	case *Str:
+		return Bool(len(v.b) > 0)
+	case Slice:
+		return Bool(v.len > 0)
+	case *Ptr:
+		return Bool(v != nil)
+	case Iface:
+		return Bool(v.t != nil)
+	case Opaque:
+		return Bool(v.tag != "float0")
+	}
+	c.errf("pb-lite: presence of %T", raw)
+	return nil
+}
+
+func (c *Ctx) pbRaw(m pbMsg, fd pbFD) (Value, types.Type, bool) {
+	sv := (*m.p.slot).(*Struct)
+	if fd.idx >= 0 {
+		return sv.f[fd.idx], m.st.Field(fd.idx).Type(), true
+	}
+	ifc := sv.f[fd.oneof].(Iface)
+	if ifc.t == nil || !types.Identical(ifc.t, fd.wrap) {
+		return nil, nil, false
+	}
+	wp := ifc.v.(*Ptr)
+	wst := fd.wrap.(*types.Pointer).Elem().Underlying().(*types.Struct)
+	return (*wp.slot).(*Struct).f[0], wst.Field(0).Type(), true
+}
+
+func (c *Ctx) pbFDIface(fd pbFD) Value { return Iface{t: pbFDType, v: fd} }
 
 // engineInvoke handles interface method calls on engine-native objects
 func (c *Ctx) engineInvoke(recv Iface, method string, args []Value) (Value, bool) {
@@ -33,44 +257,192 @@ func (c *Ctx) engineInvoke(recv Iface, method string, args []Value) (Value, bool
 		switch method {
 		case "IsValid":
 			return Bool(r.p != nil), true
+		case "Interface":
+			return Iface{t: r.pt, v: r.p}, true
+		case "ProtoReflect":
+			return recv, true
+		case "Descriptor":
+			return Iface{t: pbMDType, v: pbMD{st: r.st, pt: r.pt}}, true
+		case "Type":
+			return Iface{t: pbMDType, v: pbMD{st: r.st, pt: r.pt}}, true
 		case "Range":
 			cb := args[0]
 			if r.p == nil {
 				return nil, true
 			}
-			sv := (*r.p.slot).(*Struct)
-			for i := 0; i < r.st.NumFields(); i++ {
-				f := r.st.Field(i)
-				if !f.Exported() {
+			for _, fd := range c.pbFields(r.st, r.pt) {
+				raw, ft, present := c.pbRaw(r, fd)
+				if !present {
 					continue
 				}
-				fv := sv.f[i]
-				// oneof wrapper field: interface holding pointer to 1-field struct
-				if ifc, ok := fv.(Iface); ok {
-					if ifc.t == nil {
+				if fd.list {
+					if sl, ok := raw.(Slice); ok && sl.len == 0 {
 						continue
 					}
-					wst := ifc.t.(*types.Pointer).Elem().Underlying().(*types.Struct)
-					name := protoName(wst.Tag(0))
-					keep := c.invoke(cb, []Value{Iface{t: pbFDType, v: pbFD{name}}, Opaque{"pbvalue"}}).(*Term)
-					if keep.IsFalse() {
-						return nil, true
-					}
-					continue
+					c.errf("pb-lite Range: non-empty repeated field %s not modelled", fd.name)
 				}
-				c.errf("pb-lite Range: non-oneof field %s not modelled", f.Name())
+				if fd.idx >= 0 {
+					if !c.branch(c.pbIsSet(fd, raw)) {
+						continue
+					}
+				}
+				keep := c.invoke(cb, []Value{c.pbFDIface(fd), c.pbFieldValue(fd, raw, ft)}).(*Term)
+				if !c.branch(keep) {
+					return nil, true
+				}
+			}
+			return nil, true
+		case "Has":
+			fd := args[0].(Iface).v.(pbFD)
+			if r.p == nil {
+				return Bool(false), true
+			}
+			raw, _, present := c.pbRaw(r, fd)
+			if !present {
+				return Bool(false), true
+			}
+			if fd.idx < 0 {
+				return Bool(true), true
+			}
+			return c.pbIsSet(fd, raw), true
+		case "Get":
+			fd := args[0].(Iface).v.(pbFD)
+			if r.p == nil {
+				c.errf("pb-lite Get on nil message")
+			}
+			raw, ft, present := c.pbRaw(r, fd)
+			if !present {
+				wst := fd.wrap.(*types.Pointer).Elem().Underlying().(*types.Struct)
+				return c.pbFieldValue(fd, zero(wst.Field(0).Type()), wst.Field(0).Type()), true
+			}
+			return c.pbFieldValue(fd, raw, ft), true
+		case "Set":
+			fd := args[0].(Iface).v.(pbFD)
+			if r.p == nil {
+				panic(&goPanic{what: "protoreflect: Set on read-only (nil) message", pos: c.cp()})
+			}
+			t, ok := pvOf(args[1])
+			if !ok {
+				panic(&goPanic{what: "protoreflect: Set with invalid Value for field " + fd.name, pos: c.cp()})
+			}
+			var raw Value = t.v
+			if t.kind == "message" {
+				mi := t.v.(Iface)
+				pm, ok := mi.v.(pbMsg)
+				if !ok {
+					c.errf("pb-lite Set: foreign message implementation %s", mi.t)
+				}
+				raw = pm.p
+			}
+			if !pbKindAccepts(fd.kind, t.kind) {
+				panic(&goPanic{what: "protoreflect: Set field " + fd.name + ": invalid type: got " + t.kind, pos: c.cp()})
+			}
+			sv := (*r.p.slot).(*Struct)
+			if fd.idx >= 0 {
+				sv.f[fd.idx] = raw
+				return nil, true
+			}
+			ws := new(Value)
+			*ws = &Struct{f: []Value{raw}}
+			sv.f[fd.oneof] = Iface{t: fd.wrap, v: &Ptr{slot: ws}}
+			return nil, true
+		case "Clear":
+			fd := args[0].(Iface).v.(pbFD)
+			if r.p == nil {
+				panic(&goPanic{what: "protoreflect: Clear on read-only (nil) message", pos: c.cp()})
+			}
+			sv := (*r.p.slot).(*Struct)
+			if fd.idx >= 0 {
+				sv.f[fd.idx] = zero(r.st.Field(fd.idx).Type())
+			} else if ifc := sv.f[fd.oneof].(Iface); ifc.t != nil && types.Identical(ifc.t, fd.wrap) {
+				sv.f[fd.oneof] = Iface{}
 			}
 			return nil, true
 		}
+	case pbMD:
+		switch method {
+		case "Fields":
+			return Iface{t: pbFDsType, v: pbFDs{c.pbFields(r.st, r.pt)}}, true
+		case "FullName", "Name":
+			n := "unknown"
+			if p, ok := r.pt.(*types.Pointer); ok {
+				if nm, ok := p.Elem().(*types.Named); ok {
+					n = nm.Obj().Name()
+				}
+			}
+			return strConst(n), true
+		case "Descriptor":
+			return recv, true
+		}
+	case pbFDs:
+		switch method {
+		case "Len":
+			return BV(uint64(len(r.fds)), 64), true
+		case "Get":
+			i := c.concretize(args[0].(*Term), len(r.fds))
+			return c.pbFDIface(r.fds[i]), true
+		case "ByNumber":
+			n := args[0].(*Term)
+			for _, fd := range r.fds {
+				if c.branch(Cmp("=", n, BV(uint64(fd.number), n.width))) {
+					return c.pbFDIface(fd), true
+				}
+			}
+			return Iface{}, true
+		case "ByName", "ByJSONName", "ByTextName":
+			name := args[0].(*Str)
+			for _, fd := range r.fds {
+				if c.branch(c.strEq(name, strConst(fd.name))) {
+					return c.pbFDIface(fd), true
+				}
+			}
+			return Iface{}, true
+		}
 	case pbFD:
 		switch method {
-		case "Name", "FullName", "JSONName":
+		case "Name", "FullName", "JSONName", "TextName":
 			return strConst(r.name), true
+		case "Number":
+			return BV(uint64(r.number), 32), true
+		case "Kind":
+			return BV(uint64(r.kind), 8), true
+		case "IsList":
+			return Bool(r.list), true
+		case "IsMap":
+			return Bool(false), true
+		case "HasPresence":
+			return Bool(r.kind == 11 || r.idx < 0), true
+		case "ContainingOneof":
+			return Iface{}, true
 		}
 	}
 	return nil, false
 }
 
-func installPBLite(c *Ctx) {
-	// every generated (*T).ProtoReflect is recognised by name in call()
+func pbKindAccepts(fk int, vk string) bool {
+	switch fk {
+	case 8:
+		return vk == "bool"
+	case 9:
+		return vk == "string"
+	case 12:
+		return vk == "bytes"
+	case 5, 17, 15:
+		return vk == "int32"
+	case 3, 18, 16:
+		return vk == "int64"
+	case 13, 7:
+		return vk == "uint32"
+	case 4, 6:
+		return vk == "uint64"
+	case 2:
+		return vk == "float32"
+	case 1:
+		return vk == "float64"
+	case 14:
+		return vk == "enum"
+	case 11:
+		return vk == "message"
+	}
+	return false
 }
